@@ -45,7 +45,7 @@ ITEMS = {
     'MAX_TYPE_CHECK_LEVEL': st(TC + 'type_check_guard.rs', 'MAX_TYPE_CHECK_LEVEL', kind='const'),
     'TypeCheckLevelResult': st(TC + 'type_check_guard.rs', 'TypeCheckLevelResult', kind='type'),
     'TypeCheckResult': st(TC + 'mod.rs', 'TypeCheckResult', kind='type'),
-    'TypeCheckCheckLevel': st(TC + 'type_check_context.rs', 'TypeCheckCheckLevel', kind='enum'),
+    'TypeCheckCheckLevel': st(TC + 'type_check_context.rs', 'TypeCheckCheckLevel', kind='enum', attrs='#[derive(PartialEq, Eq)]'),
     'TypeCheckContext': st(TC + 'type_check_context.rs', 'TypeCheckContext', fields={'drop': ['table_member_checked']}),
 
     'LuaType::eq': fn(TY + 'types/lua_type.rs', 'eq', 'PartialEq for LuaType', pub=False, attrs='#[verifier::spinoff_prover]', ret='r',
@@ -59,6 +59,7 @@ ITEMS = {
     'LuaInstanceType::get_base': fn(TY + 'types/complex.rs', 'get_base', 'LuaInstanceType', ret='r', ensures='*r == self.base'),
     'GenericTpl::get_constraint': fn(TY + 'types/complex.rs', 'get_constraint', 'GenericTpl', ret='r',
                                      ensures='match r { Some(t) => self.param.constraint == Some(*t), None => self.param.constraint is None }'),
+    'LuaType::is_string': fn(TY + 'types/predicates.rs', 'is_string', 'LuaType', ret='r', ensures='r == sp_is_string(*self)'),
     'LuaType::is_boolean': fn(TY + 'types/predicates.rs', 'is_boolean', 'LuaType', ret='r', ensures='r == sp_is_boolean(*self)'),
     'LuaType::is_never': fn(TY + 'types/predicates.rs', 'is_never', 'LuaType', ret='r', ensures='r == (*self is Never)'),
     'TypeCheckFailReason::is_type_not_match': fn(TC + 'type_check_fail_reason.rs', 'is_type_not_match', 'TypeCheckFailReason', ret='r',
@@ -80,6 +81,20 @@ ITEMS = {
         r == sp_escape(db, *typ) /*@C16.escape.spec*/,
         never_escapes(*typ) ==> r is None /*@C16.escape.only-eight-variants*/'''),
 
+    'Emmyrc': st(SRC + 'config/mod.rs', 'Emmyrc', fields={'keep': ['strict']}),
+    'EmmyrcStrict': st(SRC + 'config/configs/strict.rs', 'EmmyrcStrict', fields={'keep': ['doc_base_const_match_base_type']}),
+    'check_simple_type_compact': fn(
+        TC + 'simple_type.rs', 'check_simple_type_compact', ret='r', attrs='#[verifier::spinoff_prover]',
+        requires=GUARD_REQ,
+        ensures='''
+        ctx_frame(old(context), final(context)),
+        simple_ok(old(context).level, *source, *compact_type) ==> r is Ok /*@C16.simple.accepts*/,
+        simple_err(*source, *compact_type) ==> r is Err /*@C16.simple.rejects*/''',
+        decreases='100 - check_guard.stack_level, 0int',
+        iter_names={0: 'it'},
+        loops={0: '''invariant
+                guard_wf(check_guard), ctx_frame(old(context), context), !simple_ok(old(context).level, *source, *compact_type), compact_type is Union,'''}),
+
     # ---- the checker ----------------------------------------------------------------------------------------------
     'is_like_any': fn(TC + 'mod.rs', 'is_like_any', ret='r', ensures='''
         sp_any_or_unknown(*ty) ==> r /*@C16.any-is-like-any*/,
@@ -98,7 +113,7 @@ ITEMS = {
         head_ok(%s, *source, *compact_type, %s) ==> r is Ok /*@C16.head-ok-accepts*/,
         head_err(%s, *source, *compact_type, %s) ==> r is Err /*@C16.head-err-rejects*/,
         reaches_source_arm(%s, *compact_type) && some_member_ok(%s, *source, *compact_type, %s) ==> res_no_mismatch(r) /*@C16.union-never-mismatches-member*/''' % (DBF, LVL, DBF, LVL, DBF, DBF, LVL),
-        decreases='100 - check_guard.stack_level, 2int',
+        decreases='100 - check_guard.stack_level, 3int',
         iter_names={0: 'it'},
         loops={0: '''invariant
                     guard_wf(check_guard), ctx_frame(old(context), context),
@@ -120,7 +135,7 @@ ITEMS = {
         ctx_frame(old(context), final(context)),
         cx_ok(%s, *source, *compact_type, %s) ==> r is Ok /*@C16.union-arm.first-member-accepts*/,
         some_member_ok(%s, *source, *compact_type, %s) ==> res_no_mismatch(r) /*@C16.union-arm.never-mismatches-member*/''' % (DBF, LVL, DBF, LVL),
-        decreases='100 - check_guard.stack_level, 1int',
+        decreases='100 - check_guard.stack_level, 2int',
         iter_names={0: 'it', 1: 'it2'},
         loops={0: '''invariant
                     guard_wf(check_guard), ctx_frame(old(context), context),
@@ -135,7 +150,7 @@ ITEMS = {
         ctx_frame(old(context), final(context)),
         (check_guard.stack_level < 100 && forall|k: int| 0 <= k < sp_into_vec(*compact_union).len()
             ==> head_ok(%s, *source, #[trigger] sp_into_vec(*compact_union)[k], %s + 1)) ==> r is Ok''' % (DBF, LVL),
-        decreases='100 - check_guard.stack_level, 0int',
+        decreases='100 - check_guard.stack_level, 1int',
         iter_names={0: 'it'},
         loops={0: '''invariant
                     guard_wf(check_guard), ctx_frame(old(context), context),
@@ -388,29 +403,69 @@ ITEMS.update({
     }"""),
         ],
         loops={0: '''invariant
-            *type_index == sp_type_index(db), *sub_type_ref_id != *super_type_ref_id,
-            visited.ids().contains(*sub_type_ref_id), !visited.ids().contains(*super_type_ref_id),
-            forall|x: LuaTypeDeclId| #[trigger] in_stack(stack@, x) ==> visited.ids().contains(x),
-            stack_nodup(stack@),
+            *type_index == sp_type_index(db), *sub_type_ref_id != *super_type_ref_id /*@C16.subtype.ancestor-is-found.inv*/,
+            visited.ids().contains(*sub_type_ref_id), !visited.ids().contains(*super_type_ref_id) /*@C16.subtype.ancestor-is-found.inv*/,
+            forall|x: LuaTypeDeclId| #[trigger] in_stack(stack@, x) ==> visited.ids().contains(x) /*@C16.subtype.ancestor-is-found.inv*/,
+            stack_nodup(stack@) /*@C16.subtype.ancestor-is-found.inv*/,
             forall|x: LuaTypeDeclId, y: LuaTypeDeclId| visited.ids().contains(x) && #[trigger] super_edge(sp_type_index(db), x, y)
                 ==> visited.ids().contains(y) || in_stack(stack@, x) /*@C16.subtype.ancestor-is-found.inv*/,
-        ensures stack@.len() == 0,''',
+        ensures stack@.len() == 0 /*@C16.subtype.ancestor-is-found.exit*/,''',
                1: '''invariant
-            ix == sp_type_index(db), *type_index == ix, *sub_type_ref_id != *super_type_ref_id, cur == *current_id,
-            sp_supers(ix, cur) matches Some(s) && s.len() == it.seq().len() && (forall|k: int| 0 <= k < s.len() ==> *(#[trigger] it.seq()[k]) == s[k]),
-            visited.ids().contains(*sub_type_ref_id), !visited.ids().contains(*super_type_ref_id), visited.ids().contains(cur), !in_stack(stack@, cur),
-            forall|x: LuaTypeDeclId| #[trigger] in_stack(stack@, x) ==> visited.ids().contains(x),
-            stack_nodup(stack@),
+            ix == sp_type_index(db), *type_index == ix, *sub_type_ref_id != *super_type_ref_id, cur == *current_id /*@C16.subtype.ancestor-is-found.inv*/,
+            sp_supers(ix, cur) matches Some(s) && s.len() == it.seq().len() && (forall|k: int| 0 <= k < s.len() ==> *(#[trigger] it.seq()[k]) == s[k]) /*@C16.subtype.ancestor-is-found.inv*/,
+            visited.ids().contains(*sub_type_ref_id), !visited.ids().contains(*super_type_ref_id), visited.ids().contains(cur), !in_stack(stack@, cur) /*@C16.subtype.ancestor-is-found.inv*/,
+            forall|x: LuaTypeDeclId| #[trigger] in_stack(stack@, x) ==> visited.ids().contains(x) /*@C16.subtype.ancestor-is-found.inv*/,
+            stack_nodup(stack@) /*@C16.subtype.ancestor-is-found.inv*/,
             forall|x: LuaTypeDeclId, y: LuaTypeDeclId| visited.ids().contains(x) && #[trigger] super_edge(ix, x, y)
-                ==> visited.ids().contains(y) || in_stack(stack@, x) || x == cur,
+                ==> visited.ids().contains(y) || in_stack(stack@, x) || x == cur /*@C16.subtype.ancestor-is-found.inv*/,
             forall|i: int, y: LuaTypeDeclId| 0 <= i < it.index@ && #[trigger] edge_to(sp_supers(ix, cur)->Some_0[i], y)
                 ==> visited.ids().contains(y) /*@C16.subtype.ancestor-is-found.inv2*/,'''},
     ),
 })
 
+RT = TC + 'ref_type.rs'
+ITEMS.update({
+    'LuaMemberOwner': st(SRC + 'db_index/member/lua_member_owner.rs', 'LuaMemberOwner', kind='enum'),
+    'should_retry_alias_nominal_check': fn(RT, 'should_retry_alias_nominal_check', ret='r'),
+    'check_ref_class': fn(
+        RT, 'check_ref_class', ret='r', attrs='#[verifier::spinoff_prover]', rules=['c16-letchain-enum-fields'],
+        requires=GUARD_REQ,
+        ensures='''
+        ctx_frame(old(context), final(context)),
+        descends(old(context).db, *compact_type, *source_id) ==> r is Ok /*@C16.ancestor.class-accepts-descendant*/''',
+        decreases='100 - check_guard.stack_level, 1int',
+        iter_names={0: 'it', 1: 'it2'},
+        loops={0: '''invariant guard_wf(check_guard), ctx_frame(old(context), context), !descends(old(context).db, *compact_type, *source_id),''',
+               1: '''invariant guard_wf(check_guard), ctx_frame(old(context), context), compact_type is Union,'''}),
+    'check_ref_type_compact': fn(
+        RT, 'check_ref_type_compact', ret='r', attrs='#[verifier::spinoff_prover]', rules=['c16-drop-i18n', 'c16-origin-contains'],
+        requires=GUARD_REQ,
+        ensures='''
+        ctx_frame(old(context), final(context)),
+        is_class_decl(old(context).db, *source_id) && descends(old(context).db, *compact_type, *source_id) ==> r is Ok /*@C16.ancestor.ref-source-accepts-descendant*/''',
+        decreases='100 - check_guard.stack_level, 2int',
+        iter_names={0: 'it'},
+        loops={0: '''invariant guard_wf(check_guard), ctx_frame(old(context), context), !is_class_decl(old(context).db, *source_id),'''}),
+})
+
+import os
+if os.environ.get('C16_STRICT'):
+    # the property-level clause WITHOUT the side hypothesis "a later member equal to an earlier one is of a variant hashed by value":
+    # fails on the unchanged tree (finding E1..E4 of replay/output.txt)
+    ITEMS['union_type_all']['ensures'] = ITEMS['union_type_all']['ensures'].replace(
+        ' && dup_coherent(drop_never(types@)))', ')').replace('/*@C16.union.batch-is-union-of-distinct-members*/', '/*@C16.union.batch-is-union-of-distinct-members.strict*/')
+
 UNIT = {
     'items': ITEMS,
     'extra_rules': [
+        ('c16-letchain-enum-fields',
+         r'if let Some\(compact_decl\) = context\.db\.get_type_index\(\)\.get_type_decl\(id\)\s*&& compact_decl\.is_enum\(\)\s*&& let Some\(LuaType::Union\(enum_fields\)\) =\s*compact_decl\.get_enum_field_type\(context\.db\)\s*\{(.*?)\n            \}',
+         r'if let Some(compact_decl) = context.db.get_type_index().get_type_decl(id) { if compact_decl.is_enum() { if let Some(LuaType::Union(enum_fields)) = compact_decl.get_enum_field_type(context.db) {\1\n            } } }',
+         'else-less three-part let-chain `if let P = E && C && let Q = F { B }` -> `if let P = E { if C { if let Q = F { B } } }` (let-chains evaluate left to right, bindings scope over the rest)', re.S),
+        ('c16-drop-i18n', r't!\("type `%\{name\}` not found\.", name = source_id\.get_name\(\)\)\.to_string\(\)', 'vx_msg()',
+         't!(...).to_string() used only as the text of TypeNotMatchWithReason -> vx_msg() (opaque String; no clause speaks about message text)'),
+        ('c16-origin-contains', r'let origin_contains_compact = match &origin_type \{.*?\n            \};', 'let origin_contains_compact = vx_origin_contains(&origin_type, compact_type);',
+         'the `origin_contains_compact` test of the alias branch of check_ref_type_compact (Iterator::any with a closure) -> opaque bool; the alias branch is outside every proved case', re.S),
         ('c16-while-let-loop', r'while let Some\(current_id\) = stack\.pop\(\) \{',
          'loop { let current_id = match stack.pop() { Some(__popped) => __popped, None => break };',
          '`while let Some(X) = E { BODY }` -> `loop { let X = match E { Some(v) => v, None => break }; BODY }` (Rust reference: while-let is '
@@ -455,11 +510,88 @@ UNIT = {
         ('c16-tuple-field-pub', r'pub struct BasicTypeUnion\(u32\);', 'pub struct BasicTypeUnion(pub u32);',
          'visibility of the tuple field (no run-time meaning; specs name it)'),
     ],
-    'allow': [r'external_body', r'uninterp spec fn', r'assume_specification'],
-    'min_obligations': 10,
-    'trusted': [],
-    'samples': [],
-    'not_covered': [],
+    'allow': [r'external_body', r'uninterp spec fn', r'assume_specification', r'ensures r == \*self \{ unimplemented'],
+    'min_obligations': 100,
+    'trusted': [
+        'payload / index types are opaque values (ArcIntern, InFiled, SmolStr, TextRange, FileId, LuaSignatureId, LuaTypeDeclId, LuaTupleType, LuaFunctionType, LuaObjectType, '
+        'LuaGenericType, LuaStringTplType, VariadicType, LuaAliasCallType, LuaConditionalType, LuaMappedType, DbIndex, LuaTypeIndex, LuaModuleIndex, LuaTypeDecl, TypeSubstitutor); '
+        'LuaType, LuaUnionType, LuaIntersectionType, LuaInstanceType, LuaArrayType, LuaMultiLineUnion, GenericTpl/GenericParam (projection), ModuleInfo (projection), '
+        'TypeCheckContext (projection: table_member_checked dropped), TypeCheckGuard, BasicTypeKind, Emmyrc/EmmyrcStrict (projection) are the repository\'s definitions',
+        'db lookups are uninterpreted functions of their arguments: get_type_decl, is_alias, get_alias_origin(db, None), get_module, instantiate_generic_alias_origin, '
+        'instantiate_type_generic, contain_tpl, get_call_kind, get_emmyrc, get_super_types_iter (as a list per (index, id); it filters cyclic edges - not looked into), '
+        'get_base_type_id_ref, is_base_type_id, get_real_type (contract: a non-Ref type is returned as is = its `_ => Some(typ)` arm)',
+        'branch checkers without contract (verdict unconstrained, frame only: db/detail/level of the context are not written): check_ref_enum, check_ref_type_compact_table/object/tuple, check_doc_func_type_compact, '
+        'check_sig_type_compact, check_generic_type_compact, check_array/tuple/object/table_generic/intersection/call_type_compact, check_base_type_for_ref_compact, check_variadic_type_compact',
+        'equality: derived PartialEq of id-like payloads = identity of the abstract value; of structured payloads = one uninterpreted relation per type; '
+        'LuaUnionType::eq (hand-written, HashSet based) = uninterpreted relation; `Arc<T> == Arc<T>` and `f64 == f64` have no vstd meaning: every statement about '
+        '`LuaType == LuaType` carries the hypothesis eq_obeys() (std: Arc compares the inner values, f64 is IEEE equality). The REAL LuaType::eq is verified against teq '
+        'except its two self-recursive arms (TypeGuard, TableGeneric: rules c16-eq-*-arm, uninterpreted relations). derived Clone = an equal value',
+        'std contracts restated: Arc::deref, Arc::from, Option::filter, Vec::extend (no postcondition), slice::contains (vx_contains), Iterator::find/any (vx_find_non_nil, '
+        'vx_any_callable), hashbrown::HashSet<&LuaTypeDeclId>::insert (a set of ids: derived Hash+Eq)',
+        'hashbrown::HashSet<LuaType>::insert (used by LuaType::from_vec): returns true when no stored element equals the value; returns false when some stored element equals it '
+        'AND the value is of a variant whose `impl Hash for LuaType` arm hashes the payload by value (hash_by_value: the 15 field-less variants, BooleanConst, StringConst, '
+        'IntegerConst, TableConst, Ref, Def, DocBooleanConst, Signature, DocStringConst, DocIntegerConst, Namespace, Language, ModuleRef); otherwise unspecified. '
+        'This is a READING of `impl Hash for LuaType` (Arc::as_ptr / f64::to_bits arms), not a proof; units/c16_laws/replay/output.txt confirms both sides on the real crate',
+        'BasicTypeUnion (u32 bit set, `impl Iterator` chain): new/add/iter().collect() are shims over an abstract set of BasicTypeKind; members are listed in discriminant order',
+        'vx_tpl_escape / vx_type_ne / vx_arc_type_eq / vx_arc_types_eq: wrappers whose body is the replaced expression; trusted: the value is a function of the arguments',
+        'guard_wf (0 <= stack_level <= 100) is a precondition of the checkers: TypeCheckGuard\'s field is private and only new() (0) and next_level() (<= 100, proved) build one',
+        'termination of check_sub_type_of_iterative is not proved (exec_allows_no_decreases_clause)',
+    ],
+    'samples': [
+        'check_general_type_compact: sp_like_any(compact) ==> Ok at every guard depth [C16.any-is-accepted-everywhere]; fast_eq_lb(source, compact) ==> Ok [C16.reflexive.head-guard]; '
+        'head_ok(db, source, compact, depth) ==> Ok; head_err(...) ==> Err; a Union source never answers "mismatch" for a head-accepted member [C16.union-never-mismatches-member]',
+        'law_any_accepts_unescaped: source any/unknown accepts every compact type of the 37 variants escape_type never replaces (not Intersection) at EVERY depth; '
+        'any_rejected_at_depth_limit / any_rejected_by_long_escape_chain / any_rejected_by_empty_intersection: where it does not',
+        'law_reflexive_head_guard (13 unit variants, Ref, Generic with reflexive ==), law_reflexive_simple (10 literal/namespace/language variants, via the real check_simple_type_compact), '
+        'never, TypeGuard (below depth 100), Instance (conditionally); not_reflexive_for_unlisted_sources (SelfInfer, Conditional, Mapped), not_reflexive_for_str_tpl_ref',
+        'law_union_accepts_first_member / law_union_never_mismatches_member / closable_members',
+        'check_sub_type_of_iterative: (exists n. ancestor_within(index, sub, super, n)) ==> true; check_ref_class: descends(db, compact, source_id) ==> Ok; '
+        'check_ref_type_compact: is_class_decl(db, source_id) && descends(..) ==> Ok; law_class_accepted_where_ancestor_expected: head_ok(db, Ref(anc), Ref(cls), every depth)',
+        'can_use_structural_union: true ==> no member needs semantic handling and NO pairwise rule of union_type_impl applies to any two members',
+        'union_type_all: any absorbs; never is dropped; for a structural batch result = union_of(dedupe(batch)); union_fold (the slow-path text) = acc_ok(dedupe(batch)); '
+        'law_batch_equals_fold: the two are the same union up to member order',
+    ],
+    'not_covered': [
+        'sentence 1 (reflexivity) for Def/Ref of an enum or an undeclared type (Def of a declared class: law_reflexive_def), Array, Tuple, DocFunction, Object, Union, Intersection, TableGeneric, constrained TplRef, Variadic, Signature, Call, MultiLineUnion, '
+        'ModuleRef with an export type: decided by branch checkers that are shims here (check_ref_type_compact, check_array/tuple/object/..., func_type.rs, generic_type.rs). '
+        'Ref to an ALIAS as expected type: fast_eq_check accepts Ref(a) vs Ref(a) first, so it is covered; Generic: only under `generic == generic` (derived PartialEq, reflexive unless a NaN float const is inside)',
+        'sentence 2 (union members): a member at position k > 0 is accepted only if every earlier member is rejected WITH a mismatch error; an earlier member whose branch checker '
+        'returns TypeRecursion/DonotCheck makes the whole union check fail (`Err(e) => return Err(e)`); whether a branch checker can do that for an unrelated member is not decided. '
+        'Members that are replaced by escape_type (aliases, generics of aliases, Instance, TypeGuard, ModuleRef, constrained TplRef), Union/Intersection members, and a union expected '
+        'against a union value (every value member against the whole union, two levels deeper) are only covered through head_ok as far as it closes',
+        'sentence 3 (ancestors): proved end to end (dispatch -> check_ref_type_compact -> check_ref_class -> is_sub_type_of, all real text) for an expected type Ref(anc)/Def(anc) whose '
+        'declaration exists and is a class (neither alias nor enum) and a value Ref(cls) (cls not an alias) or Def(cls), with anc reachable from cls through the supers that '
+        'get_super_types_iter REPORTS (Ref supers, base of Generic supers). Not covered: get_super_types_iter itself - it filters out edges that lead back to the class '
+        '(is_cyclic_super_edge / super_reaches), so on a cyclic hierarchy a declared ancestor can be missing from the reported relation; an expected type that is an alias of a class '
+        '(alias branch of check_ref_type_compact: goes through the alias origin first), an enum, or a class without declaration (`.ok_or(..)?` -> Err); ancestors given as Generic values '
+        '(`Generic(generic)` arm of check_ref_class is extracted but not under a law); soundness of the walk ("only then"; is_base_type_id can also answer true); termination of the walk',
+        'sentence 4 (any/unknown accepts everything): for compact types that escape_type replaces the law holds only while the chain of replacements fits the remaining depth, and '
+        'for an Intersection only if some component gets through (esc_ok); source `any` against deep recursion inside branch checkers (they call back with next_level) inherits the depth of the call',
+        'sentence 5 (batch union): proved for batches that pass can_use_structural_union and in which a later member equal (==) to an earlier one is of a value-hashed variant '
+        '(dup_coherent) and == is reflexive and symmetric on the batch members (eq_regular; both hold for every batch of value-hashed variants: lemma_value_batches_are_regular). '
+        'The slow path is the fold by construction (same text as union_fold). NOT covered: the effect of dropping `never` members before folding (union_type(acc, never) is acc only '
+        'if the alias-resolved acc is not any: batch [Ref(alias of any), never] gives Ref(..) in batch mode and any one at a time), batches with Ref/Union/MultiLineUnion/callable members '
+        '(alias lookup, canonicalize_callable_union\'s dedupe loop: shims), equality of the two results under LuaUnionType::eq (uninterpreted; proved is equality of the duplicate-free member SETS)',
+        'check_type_compact_detail / _with_level entry points (same dispatch, other context flags), check_union_type_compact_union beyond head_ok, termination of the sub-type walk',
+    ],
+    'findings': [
+        'C16 sentence 5, FINDING (replay driver: units/c16_laws/replay, built in build/c16_laws; output.txt E1..E4): union_type_all takes the LuaType::from_vec fast path for a batch that contains two EQUAL members of a '
+        'pointer-hashed variant. from_vec dedupes with a HashSet<LuaType>, and `impl Hash for LuaType` hashes Object/Union/Intersection/Generic/TableGeneric/TplRef/StrTplRef/Variadic/'
+        'MultiLineUnion/TypeGuard/Conditional/Mapped by Arc::as_ptr and FloatConst by bits while `==` compares contents: equal values in different allocations are both kept. '
+        'Batch [A<integer>, A<integer>] (the annotation written twice): batch result Union(Multi[A<integer>, A<integer>]), one at a time: A<integer>; same for [{x: integer}, {x: integer}], '
+        '[table<string,integer>, table<string,integer>], [0.0, -0.0]. Strict clause: C16_STRICT=1 ./check --unit c16_laws fails exactly at C16.union.batch-is-union-of-distinct-members.strict',
+        'C16 sentence 5, FINDING (E7, by the step contract of union_type_impl + replay): `never` members are dropped before folding, but union_type(acc, never) is not acc when acc is a Ref to an '
+        'alias of any (match_source = the alias origin = any, first arm): batch [AnyAlias, never] gives Ref(AnyAlias), one at a time gives any (semantically the same type, different value)',
+        'C16 sentence 5, observation (E5): for [nil, K, string] batch gives Multi[nil, K, string], one at a time Multi[K, nil, string] (Nullable(K) is unpacked as [K, nil]): equal under ==, '
+        'different member order (visible in rendered type text and in first-match order)',
+        'C16 sentence 1, FINDING (proved: not_reflexive_for_unlisted_sources, not_reflexive_for_str_tpl_ref; replay confirms self and StrTplRef): check(T, T) is Err for T = SelfInfer (`self`), '
+        'Conditional, Mapped (no arm in the dispatch `match source`, they fall to `_ => Err(TypeNotMatch)`) and for T = StrTplRef (the StrTplRef arm of check_simple_type_compact asks '
+        'compact_type.is_string(), which does not list StrTplRef). TypeGuard, Instance and every other escaping type are not reflexive at guard depth 100 (law_reflexive_typeguard)',
+        'C16 sentence 4, FINDING (proved: any_rejected_at_depth_limit, any_rejected_by_long_escape_chain, any_rejected_by_empty_intersection; replay confirms the last): with source any/unknown the '
+        '`Unknown | Any => Ok` arm comes AFTER the escape_type recursion (`check_guard.next_level()?`) and after the Intersection loop: any rejects a value whose type needs more escape steps than the '
+        'remaining depth (101 chained aliases from the entry point - replayed: check(any, Ch0) fails, check(any, Ch60) passes; fewer when called from inside a deep check) with Err(TypeRecursion), and rejects an intersection without components with Err(TypeNotMatch). '
+        'Pure alias cycles are collapsed to any at declaration time (type_def_tags.rs: alias_origin_reaches), so they do not reach this',
+    ],
     'mutants': [
         {'name': 'depth-error-before-like-any', 'item': 'check_general_type_compact',
          'pattern': r'if is_like_any\(compact_type\) \{', 'repl': 'let _deeper = check_guard.next_level()?;\n    if is_like_any(compact_type) {',
@@ -532,6 +664,25 @@ UNIT = {
          'pattern': r'\(left, right\) if \*left == \*right => source\.clone\(\),', 'repl': '', 'expect': r'C16\.union\.step'},
         {'name': 'fold-starts-from-nil', 'item': 'union_fold',
          'pattern': r'let mut result = LuaType::Never;', 'repl': 'let mut result = LuaType::Nil;', 'expect': r'C16\.union\.fold-is-union-of-distinct-members'},
+        {'name': 'subtype-compares-with-sub', 'item': 'check_sub_type_of_iterative',
+         'pattern': r'if super_id == super_type_ref_id \{', 'repl': 'if super_id == sub_type_ref_id {', 'expect': r'C16\.subtype\.ancestor-is-found'},
+        {'name': 'subtype-stops-at-first-root', 'item': 'check_sub_type_of_iterative',
+         'pattern': r'None => continue,', 'repl': 'None => break,', 'expect': r'check_sub_type_of_iterative:loop-invariant-not-satisfied'},
+        {'name': 'subtype-pushes-only-visited', 'item': 'check_sub_type_of_iterative',
+         'pattern': r'if visited\.insert\(super_id\) \{', 'repl': 'if !visited.insert(super_id) {', 'expect': r'C16\.subtype\.ancestor-is-found'},
+        {'name': 'simple-docstring-needs-different-text', 'item': 'check_simple_type_compact',
+         'pattern': r'LuaType::DocStringConst\(t\) => \{\s*if s == t \{', 'repl': 'LuaType::DocStringConst(t) => {\n                if s != t {',
+         'expect': r'C16\.simple\.accepts'},
+        {'name': 'simple-strtpl-accepts-everything', 'item': 'check_simple_type_compact',
+         'pattern': r'LuaType::StrTplRef\(_\) => \{\s*if compact_type\.is_string\(\) \{', 'repl': 'LuaType::StrTplRef(_) => {\n            if true {',
+         'expect': r'C16\.simple\.rejects'},
+        {'name': 'ref-class-drops-subtype-check', 'item': 'check_ref_class',
+         'pattern': r'if is_sub_type_of\(context\.db, id, source_id\) \{\s*return Ok\(\(\)\);\s*\}', 'repl': '', 'expect': r'C16\.ancestor\.class-accepts-descendant'},
+        {'name': 'ref-class-goes-to-enum-branch', 'item': 'check_ref_type_compact',
+         'pattern': r'if type_decl\.is_enum\(\) \{', 'repl': 'if !type_decl.is_enum() {', 'expect': r'C16\.ancestor\.ref-source-accepts-descendant'},
+        {'name': 'ref-source-goes-to-simple-checker', 'item': 'check_general_type_compact',
+         'pattern': r'LuaType::Ref\(type_decl_id\) => \{\s*check_ref_type_compact\(context, type_decl_id, &compact_type, check_guard\)\s*\}',
+         'repl': 'LuaType::Ref(type_decl_id) => { check_simple_type_compact(context, &source, &compact_type, check_guard) }', 'expect': r'C16\.head-ok-accepts'},
         {'name': 'canonicalize-drops-union', 'item': 'canonicalize_callable_union',
          'pattern': r'return LuaType::from_vec\(members\);', 'repl': 'return LuaType::Nil;', 'expect': r'C16\.union\.canonicalize-keeps-plain-unions'},
     ],
